@@ -1,34 +1,18 @@
 """
 Variant corpus for checker self-validation (see runner.py).  Each entry: id, prop, what, expect ("fire"/"silent"),
 optional rules (at least one of them must be among the firing rules), and either file/old/new or a list of edits.
-All edits keep the code importable.
+All edits keep the code importable.  One module per property under variants/.
 """
 from __future__ import annotations
 
+import importlib
+import pkgutil
 from typing import Any, Dict, List
 
-ATTR = "pydsdl/_serializable/_attribute.py"
-PRIM = "pydsdl/_serializable/_primitive.py"
+from . import variants as _v
 
-VARIANTS: List[Dict[str, Any]] = [
-    # ------------------------------------------------------------------------------------------------ C12
-    dict(id="c12-range-lt", prop="C12", what="range guard uses < at the lower bound", expect="fire", rules=["C12.R1"],
-         file=ATTR, old="rng.min <= self._value.native_value <= rng.max", new="rng.min < self._value.native_value <= rng.max"),
-    dict(id="c12-range-upper-lt", prop="C12", what="range guard uses < at the upper bound", expect="fire", rules=["C12.R1"],
-         file=ATTR, old="rng.min <= self._value.native_value <= rng.max", new="rng.min <= self._value.native_value < rng.max"),
-    dict(id="c12-signed-half", prop="C12", what="signed range off by one", expect="fire", rules=["C12.R2"],
-         file=PRIM, old="uint_max_half = ((1 << self.bit_length) - 1) // 2", new="uint_max_half = ((1 << self.bit_length) - 1) // 2 + 1"),
-    dict(id="c12-unsigned-max", prop="C12", what="unsigned max is 2**n", expect="fire", rules=["C12.R2"],
-         file=PRIM, old="max=fractions.Fraction((1 << self.bit_length) - 1))", new="max=fractions.Fraction(1 << self.bit_length))"),
-    dict(id="c12-float16-mantissa", prop="C12", what="float16 limit computed with 11 mantissa bits", expect="fire", rules=["C12.R2"],
-         file=PRIM, old="frac(2) ** frac(-10)", new="frac(2) ** frac(-11)"),
-    dict(id="c12-string-any-uint", prop="C12", what="1-char strings accepted for any unsigned width", expect="fire", rules=["C12.R1"],
-         file=ATTR, old="if not isinstance(data_type, UnsignedIntegerType) or data_type.bit_length != 8:", new="if not isinstance(data_type, UnsignedIntegerType):"),
-    dict(id="c12-float-rounded", prop="C12", what="float constants stored rounded through float()", expect="fire", rules=["C12.R4"],
-         file=ATTR, old='                raise InvalidConstantValueError("Invalid value type for float constant: %r" % self._value)\n',
-         new='                raise InvalidConstantValueError("Invalid value type for float constant: %r" % self._value)\n            self._value = _expression.Rational(float(self._value.native_value))\n'),
-    dict(id="c12-silent-signed-spelling", prop="C12", what="2**(n-1)-1 spelling of the signed limit", expect="silent",
-         file=PRIM, old="uint_max_half = ((1 << self.bit_length) - 1) // 2", new="uint_max_half = 2 ** (self.bit_length - 1) - 1"),
-    dict(id="c12-silent-not-gt", prop="C12", what="range guard rewritten with explicit comparisons", expect="silent",
-         file=ATTR, old="if not (rng.min <= self._value.native_value <= rng.max):", new="if self._value.native_value < rng.min or self._value.native_value > rng.max:"),
-]
+VARIANTS: List[Dict[str, Any]] = []
+for _m in sorted(pkgutil.iter_modules(_v.__path__), key=lambda m: m.name):
+    VARIANTS.extend(importlib.import_module(_v.__name__ + "." + _m.name).VARIANTS)
+_ids = [v["id"] for v in VARIANTS]
+assert len(_ids) == len(set(_ids)), "duplicate variant ids"
